@@ -8,22 +8,60 @@ Local Open Scope nat_scope.
 
 Ltac splits := repeat match goal with |- _ /\ _ => split end.
 
-(* the states some history over k variables leads to *)
-Definition reachable (s : state) : Prop := exists k l, mrun (init k) l = Some s.
+(* SCOPE.  The model is tied to the code only on histories none of whose operations is self-containing
+   at the point where it is executed (VariantSpec.self_containing / admissible): on a self-containing
+   operation the code stores into a payload a handle to that payload (a reference cycle - the open finding),
+   while mstep stays value-semantic there (it re-navigates, sees the extra reference and clones).  The
+   lemmas run_refines / step_refines (VariantAbs) hold for every history of the MODEL; the exported
+   statements carry the hypothesis so that nothing is claimed where the model is not the code. *)
+
+(* the states an admissible history over k variables leads to *)
+Definition reachable (s : state) : Prop :=
+  exists k l, admissible (spec_init k) l = true /\ mrun (init k) l = Some s.
 
 (* the value model's state at the same point *)
 Definition values_of (s : state) (vs : list value) : Prop := abs_vars s = map Some vs.
 
 Lemma reachable_inv s : reachable s -> Inv (hp s) (vars s) /\ exists vs, values_of s vs.
 Proof.
-  intros (k & l & E). destruct (run_refines k l) as (s0 & E0 & I & A).
+  intros (k & l & _ & E). destruct (run_refines k l) as (s0 & E0 & I & A).
   assert (s0 = s) by congruence. subst s0. split; auto. eexists. exact A.
+Qed.
+
+Lemma map_Some_inj {A} (a b : list A) : map Some a = map Some b -> a = b.
+Proof.
+  revert b. induction a as [|x a IH]; intros [|y b] E; cbn [map] in E; try discriminate; auto.
+  injection E as -> E. f_equal. auto.
+Qed.
+
+Lemma reachable_values s vs : reachable s -> values_of s vs ->
+  exists k l, admissible (spec_init k) l = true /\ mrun (init k) l = Some s /\ vs = spec_run (spec_init k) l.
+Proof.
+  intros (k & l & AD & E) V. exists k, l. splits; auto.
+  destruct (run_refines k l) as (s0 & E0 & _ & A). assert (s0 = s) by congruence. subst s0.
+  unfold values_of in V. rewrite V in A. apply map_Some_inj. exact A.
+Qed.
+
+Lemma admissible_app : forall l vs o,
+  admissible vs (l ++ [o]) = admissible vs l && negb (self_containing (spec_run vs l) o).
+Proof.
+  induction l as [|o' t IH]; intros vs o; cbn [admissible spec_run app].
+  - rewrite andb_true_r. reflexivity.
+  - rewrite IH. rewrite andb_assoc. reflexivity.
+Qed.
+
+Lemma mrun_app : forall l s0 s o s' out, mrun s0 l = Some s -> mstep s o = Some (s', out) -> mrun s0 (l ++ [o]) = Some s'.
+Proof.
+  induction l as [|o' t IH]; intros s0 s o s' out M E; cbn [mrun app] in *.
+  - injection M as ->. rewrite E. reflexivity.
+  - destruct (mstep s0 o') as [[s1 out1]|]; [|discriminate]. eapply IH; eauto.
 Qed.
 
 (* (1) the heap invariant *)
 Theorem histories_never_fail_and_keep_invariant k l :
+  admissible (spec_init k) l = true ->
   exists s, mrun (init k) l = Some s /\ Inv (hp s) (vars s).
-Proof. destruct (run_refines k l) as (s & E & I & _). eauto. Qed.
+Proof. intros _. destruct (run_refines k l) as (s & E & I & _). eauto. Qed.
 
 Theorem refcount_counts_every_handle s :
   reachable s -> forall b, rcof (hp s) b = cnt b (vars s) + inner b (hp s).
@@ -34,27 +72,28 @@ Theorem no_handle_to_released_block s :
 Proof. intros R b Hd. destruct (reachable_inv s R) as [I _]. eapply held_live; eauto. Qed.
 
 Theorem all_payloads_freed_at_end k l :
+  admissible (spec_init k) l = true ->
   exists s H', mrun (init k) l = Some s /\ destroy_all s = Some H' /\ live_blocks H' = 0.
 Proof.
-  destruct (run_refines k l) as (s & E & I & _).
+  intros _. destruct (run_refines k l) as (s & E & I & _).
   destruct (destroy_all_frees_everything s I) as (H' & D & Z). eauto.
 Qed.
 
 (* (2) refinement *)
 Theorem variant_refines_values k l :
+  admissible (spec_init k) l = true ->
   exists s, mrun (init k) l = Some s /\ values_of s (spec_run (spec_init k) l).
-Proof. destruct (run_refines k l) as (s & E & _ & A). eauto. Qed.
+Proof. intros _. destruct (run_refines k l) as (s & E & _ & A). eauto. Qed.
 
 Theorem step_refines_values s vs o :
-  reachable s -> values_of s vs ->
+  reachable s -> values_of s vs -> self_containing vs o = false ->
   exists s', mstep s o = Some (s', snd (spec_step vs o)) /\ reachable s' /\ values_of s' (fst (spec_step vs o)).
 Proof.
-  intros R A. destruct (reachable_inv s R) as [I _].
+  intros R A NS. destruct (reachable_inv s R) as [I _].
   destruct (step_refines s vs o I A) as (s' & E & I' & A'). exists s'. splits; auto.
-  destruct R as (k & l & M). exists k, (l ++ [o]).
-  clear - M E. revert M. generalize (init k). induction l as [|o' t IH]; intros s0 M; cbn [mrun app] in *.
-  - injection M as ->. rewrite E. reflexivity.
-  - destruct (mstep s0 o') as [[s1 out]|]; [|discriminate]. apply IH. exact M.
+  destruct (reachable_values s vs R A) as (k & l & AD & M & ->). exists k, (l ++ [o]). split.
+  - rewrite admissible_app, AD, NS. reflexivity.
+  - eapply mrun_app; eauto.
 Qed.
 
 Lemma values_geth s vs j : values_of s vs -> abs_top (hp s) (geth (vars s) j) = Some (getv vs j).
@@ -66,24 +105,52 @@ Proof.
 Qed.
 
 Theorem copies_independent s vs o j :
-  reachable s -> values_of s vs -> ~ In j (touched o) ->
+  reachable s -> values_of s vs -> self_containing vs o = false -> ~ In j (touched o) ->
   exists s' out, mstep s o = Some (s', out) /\
     abs_top (hp s') (geth (vars s') j) = abs_top (hp s) (geth (vars s) j).
 Proof.
-  intros R A N. destruct (step_refines_values s vs o R A) as (s' & E & _ & A').
+  intros R A NS N. destruct (step_refines_values s vs o R A NS) as (s' & E & _ & A').
   exists s', (snd (spec_step vs o)). split; auto.
   rewrite (values_geth s' _ j A'), (values_geth s vs j A). f_equal. apply spec_frame. auto.
 Qed.
 
 Theorem reports_last_assigned_value s vs o i p x :
-  reachable s -> values_of s vs -> assigned_value o = Some (i, p, x) ->
+  reachable s -> values_of s vs -> self_containing vs o = false -> assigned_value vs o = Some (i, p, x) ->
   exists s' out, mstep s o = Some (s', out) /\
     (out = Done -> exists v, abs_top (hp s') (geth (vars s') i) = Some v /\ vread p v = Some x).
 Proof.
-  intros R A AV. destruct (step_refines_values s vs o R A) as (s' & E & _ & A').
+  intros R A NS AV.
+  destruct (step_refines_values s vs o R A NS) as (s' & E & _ & A').
   exists s', (snd (spec_step vs o)). split; auto. intro D.
   exists (getv (fst (spec_step vs o)) i). split; [apply values_geth; auto|].
   eapply reports_last_assigned; eauto.
+Qed.
+
+(* `x.at(p) = y.at(sp)` (operator=(const Variant&), any two nodes, one not inside the other's written path):
+   afterwards the destination node holds the value the source node had, which compares equal to itself, and
+   when x and y are different variables the source is unchanged *)
+Theorem assigned_copy_equals_source s vs i p j sp :
+  reachable s -> values_of s vs -> self_containing vs (OAssign i p j sp) = false ->
+  exists s' out, mstep s (OAssign i p j sp) = Some (s', out) /\
+    (out = Done -> exists x v,
+       vread sp (getv vs j) = Some x /\ abs_top (hp s') (geth (vars s') i) = Some v /\ vread p v = Some x /\
+       veq x x = Some true /\
+       (i <> j -> abs_top (hp s') (geth (vars s') j) = abs_top (hp s) (geth (vars s) j))).
+Proof.
+  intros R A NS.
+  destruct (step_refines_values s vs _ R A NS) as (s' & E & _ & A').
+  exists s', (snd (spec_step vs (OAssign i p j sp))). split; auto. intro D.
+  destruct (vread sp (getv vs j)) as [x|] eqn:RS.
+  - exists x, (getv (fst (spec_step vs (OAssign i p j sp))) i). splits; auto.
+    + apply values_geth; auto.
+    + eapply reports_last_assigned; eauto. cbn [assigned_value]. rewrite RS. reflexivity.
+    + apply veq_refl.
+    + intro N. rewrite (values_geth s' _ j A'), (values_geth s vs j A). f_equal. apply spec_frame.
+      cbn [touched In]. intros [Q|[]]. auto.
+  - exfalso. revert D. unfold spec_step.
+    destruct ((i <? length vs) && (j <? length vs)); [|cbn [snd]; discriminate].
+    rewrite let_pair. destruct (snd (vupd_var vs i p (fun v => v))) eqn:S; [|cbn [snd]; discriminate].
+    rewrite (vupd_var_id_ok vs i p S), RS. cbn [snd]. discriminate.
 Qed.
 
 (* getType / to* of a variable are the Spec's functions of its value *)
@@ -118,7 +185,11 @@ Theorem variant_equal_to_copy s vs i j o :
        meq_top (hp s') (geth (vars s') j) (geth (vars s') i) = Some true /\
        abs_top (hp s') (geth (vars s') i) = abs_top (hp s) (geth (vars s) j)).
 Proof.
-  intros R A O. destruct (step_refines_values s vs o R A) as (s' & E & R' & A').
+  intros R A O.
+  assert (NS : self_containing vs o = false).
+  { destruct O as [-> | ->]; cbn [self_containing vresolve is_prefix length Nat.eqb negb andb]; auto.
+    destruct (i =? j); reflexivity. }
+  destruct (step_refines_values s vs o R A NS) as (s' & E & R' & A').
   exists s', (snd (spec_step vs o)). split; auto. intro D.
   assert (LEN : length (vars s') = length vs).
   { unfold values_of, abs_vars in A'. apply (f_equal (@length _)) in A'. rewrite !map_length in A'.
@@ -146,4 +217,7 @@ Definition ex_l0 : list op :=
     OCopyNew 2 1;
     OSetNode 0 [] KMap [([107%Z], 1%nat); ([108%Z], 2%nat)] ].
 Definition ex_cow : op := OStrAppend 1 [(KList, ByIdx 0)] [120%Z].
+(* assignments whose argument is a reference into the assigned Variant's own payload *)
+Definition ex_str_from_own : op := OAssignStrFrom 0 [] 0 [(KMap, ByKey [107%Z]); (KList, ByIdx 0)].
+Definition ex_node_from_own : op := OAssignNodeFrom 0 [] 0 [(KMap, ByKey [108%Z])] KList.
 
